@@ -50,6 +50,11 @@ type faultClient struct {
 	calls   SxList  // calls of the current sync: [kind txid listing differing]
 	events  *SxList // the oracle's event stream
 	anomaly string
+
+	// compaction faults (compact.go): reads of one source object, and the outcome
+	// of the next write to a level >= 1
+	cf        *compFault
+	cwOutcome int // 0 ok | 1 fail before | 2 fail after
 }
 
 var _ litestream.ReplicaClient = (*faultClient)(nil)
@@ -64,6 +69,9 @@ func (c *faultClient) DeleteLTXFiles(ctx context.Context, a []*ltx.FileInfo) err
 	return c.inner.DeleteLTXFiles(ctx, a)
 }
 func (c *faultClient) OpenLTXFile(ctx context.Context, level int, minTXID, maxTXID ltx.TXID, offset, size int64) (io.ReadCloser, error) {
+	if c.cf != nil && c.cf.matches(level, minTXID, maxTXID) {
+		return c.cf.open(ctx, c.inner, offset, size)
+	}
 	return c.inner.OpenLTXFile(ctx, level, minTXID, maxTXID, offset, size)
 }
 
@@ -194,6 +202,17 @@ func (f *failingReader) Read(p []byte) (int, error) {
 }
 
 func (c *faultClient) WriteLTXFile(ctx context.Context, level int, minTXID, maxTXID ltx.TXID, rd io.Reader) (*ltx.FileInfo, error) {
+	if level >= 1 && c.cwOutcome != 0 {
+		o := c.cwOutcome
+		c.cwOutcome = 0
+		if o == 1 {
+			return nil, errInjected
+		}
+		if _, err := c.inner.WriteLTXFile(ctx, level, minTXID, maxTXID, rd); err != nil {
+			return nil, err // the stream itself failed: nothing took effect
+		}
+		return nil, errInjected
+	}
 	if !c.armed || level != 0 {
 		return c.inner.WriteLTXFile(ctx, level, minTXID, maxTXID, rd)
 	}
@@ -229,6 +248,17 @@ type srcDB struct {
 	path  string
 	sqldb *sql.DB
 	db    *litestream.DB
+}
+
+// writeNew writes until the database has produced one more L0 file.
+func (s *srcDB) writeNew(r *rand.Rand) error {
+	n := len(s.localL0())
+	for i := 0; i < 20 && len(s.localL0()) == n; i++ {
+		if err := s.write(r); err != nil {
+			return err
+		}
+	}
+	return nil
 }
 
 func newSrcDB(dir string) (*srcDB, error) {
